@@ -416,6 +416,31 @@ def history_probes(rec):
     if e1.get("w") != 1 or e2.get("w") != 2:
         rec.violation("param-value-wrong", f"one dict handed to two calls and edited in between: the first instance exports w={e1.get('w')!r} (given 1), "
                                            f"the second w={e2.get('w')!r} (given 2)", case={"kind": "probe", "what": "dict-history"})
+    # (1b) ... and the same through the public constructor of the call object
+    rec.count("probe.dict-history")
+    from hdl21.external_module import ExternalModuleCall
+
+    d = {"w": 1, "k": "a"}
+    c1 = ExternalModuleCall(module=L["Edict"], params=d)
+    d["w"] = 2
+    c2 = ExternalModuleCall(module=L["Edict"], params=d)
+    e1, e2 = exported(c1), exported(c2)
+    if e1.get("w") != 1 or e2.get("w") != 2:
+        rec.violation("param-value-wrong", f"one dict handed to two ExternalModuleCall(...) objects and edited in between: the first instance exports "
+                                           f"w={e1.get('w')!r} (given 1), the second w={e2.get('w')!r} (given 2)", case={"kind": "probe", "what": "dict-history"})
+    # (2a) typed constructors given a parameters OBJECT of the other type
+    from hdl21.primitives import MosParams, BipolarParams
+
+    for ctor, pobj, bad in ((h.Nmos, MosParams(tp=MosType.PMOS), MosType.PMOS), (h.Npn, BipolarParams(tp=BipolarType.PNP), BipolarType.PNP)):
+        rec.count("probe.typed-constructor")
+        try:
+            call = ctor(pobj)
+        except Exception:
+            continue  # refused: fine
+        got = exported(call).get("tp")
+        if not (isinstance(got, tuple) and got[-1] == bad.value) and got != bad.value:
+            rec.violation("param-value-wrong", f"{ctor.__name__}({type(pobj).__name__}(tp={bad})) was accepted and exports tp={got!r}: the given value is {bad.value!r}",
+                          case={"kind": "probe", "what": "typed-constructor"})
     # (2) typed constructors given a contradicting type
     for ctor, bad, want in ((h.Nmos, MosType.PMOS, "NMOS"), (h.Pmos, MosType.NMOS, "PMOS"), (h.Npn, BipolarType.PNP, "NPN"), (h.Pnp, BipolarType.NPN, "PNP")):
         rec.count("probe.typed-constructor")
